@@ -1010,7 +1010,10 @@ impl MdGen<'_> {
                 mk(format!("out {k}"), "plain", eq)
             };
         }
-        match rng.below(37) {
+        match rng.below(40) {
+            37 => mk(format!("int main{k} ()"), "paren-empty", eq),
+            38 => mk(" ()".into(), "paren-empty", eq),
+            39 => mk(format!("call{k} (glob) ()"), "paren-empty", eq),
             32 | 33 => mk(rng.pick(BIG_BRACKETS).to_string(), "big-bracket", eq),
             34 if pos >= 1 => mk(format!("> later {k}"), "gt", eq),
             0 => mk(String::new(), "blank", eq),
@@ -1969,7 +1972,10 @@ pub fn gen_cram(rng: &mut Rng) -> CramDoc {
                 for _ in 0..nb {
                     comment(rng, &mut ls);
                     k += 1;
-                    let (text, class): (String, &str) = match rng.below(23) {
+                    let (text, class): (String, &str) = match rng.below(26) {
+                        23 => (format!("int main{k} ()"), "paren-empty"),
+                        24 => (format!("f{k} (re) ()"), "paren-empty"),
+                        25 => (format!("x{k} (bar)"), "paren"),
                         16 | 17 => (rng.pick(BIG_BRACKETS).to_string(), "big-bracket"),
                         18 if in_body => (format!("> later {k}"), "gt"),
                         0 => (String::new(), "empty"),
